@@ -31,6 +31,8 @@ pub struct Site {
     pub inst: String,
     pub kind: String,
     pub msg: String,
+    /// source-text-free description of an Assert obligation (operand types / constants, indexed container)
+    pub shape: String,
     pub site: String,
     pub visits: u64,
     pub violated: bool,
